@@ -219,6 +219,7 @@ Definition mx_lok (th : mx_thread) : Prop :=
   | XLSpin _ _ old => xk old = false /\ xs old = false
   | XT3 old => xl old = false /\ xk old = false /\ xs old = false
   | XU1 => xh th = true
+  | XUSlow old => xl old = false /\ xk old = false /\ xs old = false /\ xn old <> 0
   | _ => True
   end.
 
@@ -249,9 +250,9 @@ Lemma mx_step_th_J r t th r' t' th' ev RH RW RS RP RD :
   mx_lok th' /\
   mx_J r' t' (mx_wH th' + RH) (mx_wW th' + RW) (mx_wS th' + RS) (mx_wP th' + RP) (mx_wD th' + RD).
 Proof.
-  destruct th as [pc h todo]. unfold mx_step_th, mx_lok, mx_J, mx_wH, mx_wW, mx_wS, mx_wP, mx_wD, mx_b2n.
+  destruct th as [pc h todo]. unfold mx_step_th, mx_to_cas, mx_uslow_done, mx_lok, mx_J, mx_wH, mx_wW, mx_wS, mx_wP, mx_wD, mx_b2n.
   cbn [xpc xh xtodo]. intros L J Hs.
-  destruct pc; [destruct todo as [|[sp st| |] rest]| | | | | destruct t as [|t0] | | | | | | | | |];
+  destruct pc; [destruct todo as [|[sp st| |] rest]| | | | | destruct t as [|t0] | | | | | | | | | |];
     mx_conds; inversion Hs; subst; clear Hs;
     cbn [xpc xh xtodo mx_mkth mx_set_l mx_slow_new mx_zero xl xk xs xn] in *;
     repeat match goal with o : mx_w |- _ => destruct o as [?l ?k ?s ?n] end; cbn [xl xk xs xn] in *;
